@@ -132,4 +132,111 @@ example :
     cellAt s'.heap 1 = none ∧ s'.root 0 = none := by
   decide
 
+/-! ## The observation is defined: with enough fuel `unfold` succeeds on every live reference
+
+`observation_stable` speaks about `unfold f s.heap r' = some t`; it would be empty talk if `unfold`
+could fail for every fuel.  In a valid acyclic state it succeeds as soon as the fuel exceeds the
+height of the root. -/
+
+/-- What `unfold` needs of a reference at fuel `n`: inline, or a live cell of height below `n`. -/
+def Unfoldable (h : Heap D) (g : Nat → Nat) (n : Nat) : Ref D → Prop
+  | .inl _ => True
+  | .ptr i => (∃ c, cellAt h i = some c) ∧ g i < n
+
+theorem unfoldL_total_of {h : Heap D} {g : Nat → Nat} (n : Nat)
+    (ih : ∀ r, Unfoldable h g n r → ∃ t, unfold n h r = some t) :
+    ∀ ks : List (Ref D), (∀ k ∈ ks, Unfoldable h g n k) → ∃ ts, unfoldL n h ks = some ts
+  | [], _ => ⟨[], by unfold unfoldL; rfl⟩
+  | k :: ks, hk => by
+    obtain ⟨t, ht⟩ := ih k (hk k (by simp))
+    obtain ⟨ts, hts⟩ := unfoldL_total_of n ih ks (fun x hx => hk x (by simp [hx]))
+    exact ⟨t :: ts, by unfold unfoldL; rw [ht, hts]⟩
+
+/-- `unfold` is total on live references of a heap with a height function in which every child link
+of a live cell points to a live cell. -/
+theorem unfold_total {h : Heap D} {g : Nat → Nat} (hh : Hgt h g)
+    (hclosed : ∀ i c, cellAt h i = some c → ∀ j, Ref.ptr j ∈ c.kids → ∃ c', cellAt h j = some c') :
+    ∀ (n : Nat) (r : Ref D), Unfoldable h g n r → ∃ t, unfold n h r = some t := by
+  intro n
+  induction n with
+  | zero =>
+    intro r hr
+    cases r with
+    | inl d => exact ⟨.mk d [], by unfold unfold; rfl⟩
+    | ptr i => exact absurd hr.2 (Nat.not_lt_zero _)
+  | succ n ih =>
+    intro r hr
+    cases r with
+    | inl d => exact ⟨.mk d [], by unfold unfold; rfl⟩
+    | ptr i =>
+      obtain ⟨⟨c, hc⟩, hlt⟩ := hr
+      have hk : ∀ k ∈ c.kids, Unfoldable h g n k := by
+        intro k hk
+        cases k with
+        | inl d => trivial
+        | ptr j =>
+          refine ⟨hclosed i c hc j hk, ?_⟩
+          have := (hh.lt i c hc j hk).1
+          omega
+      obtain ⟨ts, hts⟩ := unfoldL_total_of n ih c.kids hk
+      exact ⟨.mk c.data ts, by unfold unfold; rw [hc]; simp [hts]⟩
+
+/-- In a valid acyclic state every handle observes a tree (for every fuel above the root's height). -/
+theorem observation_defined {s : State D} (hw : SWF s) (ha : Acyclic s) (h' : Nat) (r' : Ref D)
+    (hr' : s.root h' = some r') : ∃ f t, unfold f s.heap r' = some t := by
+  obtain ⟨g, hg⟩ := ha
+  have hclosed : ∀ i c, cellAt s.heap i = some c → ∀ j, Ref.ptr j ∈ c.kids → ∃ c', cellAt s.heap j = some c' := by
+    intro i c hc j hj
+    apply hw.live
+    have h1 := cnt_pos_of_mem hj
+    have h2 := cnt_kids_le j s.heap i c hc
+    omega
+  cases r' with
+  | inl d => exact ⟨0, .mk d [], by unfold unfold; rfl⟩
+  | ptr i =>
+    have hlive : ∃ c, cellAt s.heap i = some c := by
+      apply (no_dangling_no_garbage hw).1
+      simp only [State.refs, List.mem_append]
+      exact Or.inl (root_mem hr')
+    obtain ⟨t, ht⟩ := unfold_total hg hclosed (g i + 1) (.ptr i) ⟨hlive, Nat.lt_succ_self _⟩
+    exact ⟨g i + 1, t, ht⟩
+
+/-! ## From nothing: the hypotheses of `persistence` are reachable -/
+
+/-- The state before the first parse: no cells, no handles. -/
+def State.empty : State D := { heap := [], handles := [] }
+
+theorem swf_empty : SWF (State.empty : State D) :=
+  ⟨fun id => by simp [State.empty, rcOf, cellAt, rootsOf, kidsOf], fun id c hc => by simp [State.empty, cellAt] at hc⟩
+
+theorem acyclic_empty : Acyclic (State.empty : State D) :=
+  ⟨fun _ => 0, ⟨fun i c hc => by simp [State.empty, cellAt] at hc, fun i c hc => by simp [State.empty, cellAt] at hc⟩⟩
+
+/-- **Persistence for every family of handles that descends from parses**: start with nothing, apply
+any history (the first operations being parses = `reparse` with any build specification); every
+state on the way is valid and acyclic, every handle observes a tree, and `persistence` applies to
+every suffix of the history. -/
+theorem persistence_from_empty (pre ops : List (Op D)) :
+    let s := pre.foldl State.apply (State.empty : State D)
+    SWF s ∧ Acyclic s ∧
+    (∀ h' r', s.root h' = some r' → ∃ f t, unfold f s.heap r' = some t) ∧
+    SWF (ops.foldl State.apply s) ∧
+    (∀ i, Reachable (ops.foldl State.apply s) i → ∃ c, cellAt (ops.foldl State.apply s).heap i = some c) ∧
+    (∀ (h' : Nat), (∀ op ∈ ops, ¬ Op.touches h' op) → ∀ (r' : Ref D), s.root h' = some r' →
+      (ops.foldl State.apply s).root h' = some r' ∧
+      ∀ (f : Nat) (t : OTree D), unfold f s.heap r' = some t → unfold f (ops.foldl State.apply s).heap r' = some t) := by
+  intro s
+  have hw : SWF s := rc_invariant pre _ swf_empty
+  have ha : Acyclic s := (acyclic_invariant pre _ swf_empty acyclic_empty).2
+  have hp := persistence ops s hw
+  exact ⟨hw, ha, fun h' r' hr' => observation_defined hw ha h' r' hr', hp.1, hp.2.1, hp.2.2⟩
+
+/-- Non-vacuity: parse a node with two leaves from nothing, copy, edit the copy; handle 0 exists and
+still observes `7(1, 2)`. -/
+example :
+    let pre : List (Op Nat) := [.reparse (.node 7 [.leaf 1, .leaf 2])]
+    let s := pre.foldl State.apply (State.empty : State Nat)
+    s.root 0 = some (.ptr 0) ∧ cellAt s.heap 0 = some { rc := 1, kids := [.inl 1, .inl 2], data := 7 } := by
+  decide
+
 end TsVerif.C08
